@@ -13,7 +13,11 @@ func VerifC10Squash() {
 	vUnwind(50000)
 	meta := newVStore("meta")
 	vmeta := newVStore("vmeta")
-	stores := vCtxStoresAll(meta, vmeta, newVStore("blob"))
+	blob := newVStore("blob")
+	blob.putRaw("some-root-key", []byte("root"))
+	blob.putRaw("some-leaf-key", []byte("leaf"))
+	beforeB := vSnapshot(blob)
+	stores := vCtxStoresAll(meta, vmeta, blob)
 	vPutRepo(meta, "r")
 	vPutRepo(meta, "r2")
 	vPutBundle(meta, "r2", vB1, 1, true)
@@ -128,6 +132,7 @@ func VerifC10Squash() {
 			vAssert(!has, "label-of-removed-bundle-is-removed")
 		}
 	}
+	vAssertSame(beforeB, blob, []string{""}, "squash-leaves-the-blob-store-alone") // content of kept bundles stays downloadable: blobs are only ever removed by purge
 	vAssertSame(beforeM, meta, []string{"repos/", "bundles/r2/"}, "repositories-and-other-bundles-untouched")
 	vAssertSame(beforeV, vmeta, []string{"labels/r2/"}, "other-repository-labels-untouched")
 	// observers agree
